@@ -559,6 +559,15 @@ async fn run(plan: &Value, ctx: &mut Ctx) {
                 if out.at < deadline {
                     ctx.violate("C35", "timeout-before-deadline", "", format!("{} completed with BadTimeout at {:.1} ms, before its deadline", desc, ms(out.at)));
                 }
+                // "a connection-closed status when the transport closes": a request that was pending when the
+                // transport reported its close well before the deadline is told so then, it is not left to
+                // run into its time-out (only in runs without a stalled peer: a client blocked in a write
+                // need not notice the close)
+                if let (Some((c, cs)), None) = (closed, stall) {
+                    if sub + Duration::from_millis(1) < c && c + Duration::from_millis(20) < deadline && term.map(|(t, _)| t > c).unwrap_or(true) {
+                        ctx.violate("C35", "timeout-although-transport-closed", "", format!("{} was pending when the transport closed with {} at {:.1} ms and still completed with BadTimeout at {:.1} ms", desc, cs.name(), ms(c), ms(out.at)));
+                    }
+                }
                 // "when its deadline passes": the caller is told then, not a queueing delay later. Time is
                 // virtual here, so the slack (10 ms + a quarter of the time-out) is for implementations that
                 // look at deadlines periodically, not for scheduling noise.
